@@ -206,6 +206,11 @@ func (epc *EpochsContext) Clone() *EpochsContext {
 }
 
 func (epc *EpochsContext) RotateEpochs(state BeaconState) error {
+	// An upgradeable state wraps the fork-specific state: look through it,
+	// otherwise the sync committees of the wrapped state are never found.
+	if w, ok := state.(interface{ Unwrap() BeaconState }); ok {
+		state = w.Unwrap()
+	}
 	epc.PreviousEpoch = epc.CurrentEpoch
 	epc.CurrentEpoch = epc.NextEpoch
 	nextEpoch := epc.CurrentEpoch.Epoch + 1
